@@ -277,7 +277,8 @@ func (o *Oracle) judgeBackChannel(e *Exchange, ep string, methodOK bool) {
 			if _, known := o.sealed[code]; !known {
 				o.violate(e, "C02.A4-only-unmodified-values-open", fmt.Sprintf("a code that was never issued by sso-auth was redeemed (derived by %q)", o.corrupted[code]), "kind", "auth-code", "how", o.corrupted[code])
 			}
-			if now.After(cs.RefreshDeadline.Add(margin)) || now.After(cs.LifetimeDeadline.Add(margin)) {
+			// the deadlines are read from the sealed code itself, so there is no rounding to allow for: past is past
+			if now.After(cs.RefreshDeadline) || now.After(cs.LifetimeDeadline) {
 				o.violate(e, "C08.A2-only-genuine-codes", fmt.Sprintf("/redeem returned tokens for an expired code session (refresh deadline %v ago)", now.Sub(cs.RefreshDeadline)))
 			}
 			var d struct {
@@ -324,6 +325,19 @@ func (o *Oracle) judgeAuthSignIn(e *Exchange) {
 		o.violate(e, "C09.A1-code-needs-live-session", "authorization code issued without an authentic authenticator session cookie", "facet", "cookie")
 		return
 	}
+	if e.Overlap {
+		// two sign-ins in flight at once: a call belongs to the request whose token it carries
+		own := *e
+		own.Children = nil
+		for _, c := range e.Children {
+			body := string(c.ReqBody)
+			if c.Link != L3 || strings.Contains(body, "token="+S.AccessToken) || strings.Contains(body, "refresh_token="+S.RefreshToken) {
+				own.Children = append(own.Children, c)
+			}
+		}
+		e = &own
+		o.res.cover("C16|world-twin|auth-judged")
+	}
 	refresh := l3Child(e, "token")
 	introspect := l3Child(e, "introspect")
 	if introspect == nil {
@@ -331,7 +345,7 @@ func (o *Oracle) judgeAuthSignIn(e *Exchange) {
 	}
 	refreshed := refresh != nil && refresh.Status == 200
 	o.res.cover(fmt.Sprintf("C09.A1|refreshed=%v|introspected=%v", refreshed, introspect != nil))
-	if now.After(S.LifetimeDeadline.Add(margin)) {
+	if now.After(S.LifetimeDeadline) { // read from the sealed cookie: no rounding to allow for
 		o.violate(e, "C09.A1-code-needs-live-session", fmt.Sprintf("code issued %v after the authenticator session's lifetime", now.Sub(S.LifetimeDeadline)), "facet", "lifetime")
 	}
 	confirmed := false
